@@ -411,9 +411,9 @@ impl<'a> CompilerState<'a> {
             .pratt
             .map_primary(|primary| -> Result<Expr, Error> {
                 match primary.as_rule() {
-                    Rule::int => Ok(Expr::Integer(parse_int(
-                        primary.into_inner().next().unwrap(),
-                    ))),
+                    Rule::int => Ok(Expr::Integer(
+                        self.parse_int(primary.into_inner().next().unwrap())?,
+                    )),
                     Rule::expr => {
                         let res = self.parse_expr_ex(primary.into_inner())?;
                         let mut lit_strs = literal_strings.lock().unwrap();
@@ -569,9 +569,9 @@ impl<'a> CompilerState<'a> {
             .pratt_init_value
             .map_primary(|primary| -> Result<Expr, Error> {
                 match primary.as_rule() {
-                    Rule::int => Ok(Expr::Integer(parse_int(
-                        primary.into_inner().next().unwrap(),
-                    ))),
+                    Rule::int => Ok(Expr::Integer(
+                        self.parse_int(primary.into_inner().next().unwrap())?,
+                    )),
                     Rule::expr => {
                         let res = self.parse_expr_ex(primary.into_inner())?;
                         let mut lit_strs = literal_strings.lock().unwrap();
@@ -800,7 +800,7 @@ impl<'a> CompilerState<'a> {
                                 case_set = (Vec::<i32>::new(), Vec::<StatementLoc<'a>>::new());
                                 last_was_a_statement = false;
                             }
-                            case_set.0.push(parse_int(i.into_inner().next().unwrap()));
+                            case_set.0.push(self.parse_int(i.into_inner().next().unwrap())?);
                         }
                         Rule::statement => {
                             case_set.1.push(self.compile_statement(i)?);
@@ -897,14 +897,14 @@ impl<'a> CompilerState<'a> {
                 })
             }
             Rule::csleep_statement => {
-                let s = parse_int(
+                let s = self.parse_int(
                     pair.into_inner()
                         .next()
                         .unwrap()
                         .into_inner()
                         .next()
                         .unwrap(),
-                );
+                )?;
                 Ok(StatementLoc {
                     pos,
                     label: None,
@@ -982,7 +982,7 @@ impl<'a> CompilerState<'a> {
         self.calculator
             .map_primary(|primary| -> Result<i32, Error> {
                 match primary.as_rule() {
-                    Rule::int => Ok(parse_int(primary.into_inner().next().unwrap())),
+                    Rule::int => self.parse_int(primary.into_inner().next().unwrap()),
                     Rule::calc_expr => Ok(self.parse_calc(primary.into_inner())?),
                     Rule::calc_sizeof => Ok(self.parse_sizeof(primary.into_inner())?),
                     rule => unreachable!("parse_calc expected atom, found {:?}", rule),
@@ -1325,14 +1325,14 @@ impl<'a> CompilerState<'a> {
                                                     }
                                                     Rule::ptr_offset => {
                                                         let sign = if x.as_str().starts_with("-") { -1 } else { 1 };
-                                                        let offset = parse_int(
+                                                        let offset = self.parse_int(
                                                             x.into_inner()
                                                                 .next()
                                                                 .unwrap()
                                                                 .into_inner()
                                                                 .next()
                                                                 .unwrap(),
-                                                        );
+                                                        )?;
                                                         match pxx.next() {
                                                         Some(x) => match x.as_rule() {
                                                             Rule::ptr_low => {
@@ -1434,7 +1434,7 @@ impl<'a> CompilerState<'a> {
                                                                 },
                                                                 Rule::ptr_offset => {
                                                                     let sign = if x.as_str().starts_with("-") { -1 } else { 1 };
-                                                                    let offset = parse_int(x.into_inner().next().unwrap().into_inner().next().unwrap());
+                                                                    let offset = self.parse_int(x.into_inner().next().unwrap().into_inner().next().unwrap())?;
                                                                     match pxxx.next() {
                                                                         Some(x) => match x.as_rule() {
                                                                             Rule::ptr_low => {
@@ -1500,7 +1500,7 @@ impl<'a> CompilerState<'a> {
                                                             Some(x) => match x.as_rule() {
                                                                 Rule::ptr_offset => {
                                                                     let sign = if x.as_str().starts_with("-") { -1 } else { 1 };
-                                                                    sign * parse_int(x.into_inner().next().unwrap().into_inner().next().unwrap())
+                                                                    sign * self.parse_int(x.into_inner().next().unwrap().into_inner().next().unwrap())?
                                                                 },
                                                                 _ => return Err(self.syntax_error(&format!("Incorrect suffix to reference {}", s), start))
                                                             },
@@ -2215,6 +2215,23 @@ impl<'a> CompilerState<'a> {
         Ok(())
     }
 
+    fn parse_int(&self, p: Pair<Rule>) -> Result<i32, Error> {
+        let pos = p.as_span().start();
+        let v = match p.as_rule() {
+            Rule::decimal => p.as_str().parse::<i32>().ok(),
+            Rule::hexadecimal => i32::from_str_radix(&p.as_str()[2..], 16).ok(),
+            Rule::octal => i32::from_str_radix(p.as_str(), 8).ok(),
+            Rule::quoted_character => {
+                let s = compile_quoted_string_ex(p.into_inner().next().unwrap().as_str());
+                s.chars().next().map(|c| c as i32)
+            }
+            _ => {
+                unreachable!()
+            }
+        };
+        v.ok_or_else(|| self.syntax_error("Integer constant is malformed or out of range", pos))
+    }
+
     fn compile_quoted_string(&self, p: Pair<Rule>) -> String {
         let mut v = String::new();
         let it = p.into_inner();
@@ -2224,21 +2241,6 @@ impl<'a> CompilerState<'a> {
         }
         v.push(char::from_u32(0).unwrap());
         v
-    }
-}
-
-fn parse_int(p: Pair<Rule>) -> i32 {
-    match p.as_rule() {
-        Rule::decimal => p.as_str().parse::<i32>().unwrap(),
-        Rule::hexadecimal => i32::from_str_radix(&p.as_str()[2..], 16).unwrap(),
-        Rule::octal => i32::from_str_radix(p.as_str(), 8).unwrap(),
-        Rule::quoted_character => {
-            let s = compile_quoted_string_ex(p.into_inner().next().unwrap().as_str());
-            s.chars().next().unwrap() as i32
-        }
-        _ => {
-            unreachable!()
-        }
     }
 }
 
